@@ -109,6 +109,7 @@ Plan gen_relay(sk::Rng& r, bool garbage) {
     // generator-side sketch of what each client has done, to make most steps meaningful (it is a bias, not an oracle)
     std::vector<int> gstate(static_cast<std::size_t>(nc), 0);   // 0 fresh, 1 registered, 2 connector awaiting identity, 3 bridged-ish
     std::vector<int> gid(static_cast<std::size_t>(nc), -1);
+    std::vector<std::vector<int>> gold(static_cast<std::size_t>(nc));  // ids this connection registered under earlier and has since replaced
     for (int i = 0; i < n; ++i) {
         Op op;
         const auto c = r.below(100);
@@ -119,15 +120,23 @@ Plan gen_relay(sk::Rng& r, bool garbage) {
             int& st = gstate[static_cast<std::size_t>(cl)];
             if (st == 0) {
                 std::vector<int> registered;
-                for (std::int64_t o = 0; o < nc; ++o) if (gstate[static_cast<std::size_t>(o)] == 1) registered.push_back(gid[static_cast<std::size_t>(o)]);
+                for (std::int64_t o = 0; o < nc; ++o) if (gstate[static_cast<std::size_t>(o)] == 1) {
+                    registered.push_back(gid[static_cast<std::size_t>(o)]);
+                    // an id the target has given up by re-registering: nobody may be reachable under it any more
+                    if (r.chance(1, 2)) for (int old : gold[static_cast<std::size_t>(o)]) registered.push_back(old);
+                }
                 if (!registered.empty() && r.chance(1, 2)) { op.k = "connect"; op.a = {cl, static_cast<std::int64_t>(r.below(3)), registered[r.below(registered.size())], frag}; if (op.a[1] == op.a[2]) op.a[1] = (op.a[2] + 1) % 3; st = 2; }
                 else { op.k = "register"; op.a = {cl, static_cast<std::int64_t>(r.below(3)), frag, static_cast<std::int64_t>(r.below(2))}; st = 1; gid[static_cast<std::size_t>(cl)] = static_cast<int>(op.a[1]); }
             } else if (st == 1) {
                 const auto q = r.below(10);
                 if (q < 5) { op.k = "data"; op.a = {cl, r.pick<std::int64_t>({1, 3, 40, 700}), frag}; }
-                else if (q < 7) { op.k = "register"; op.a = {cl, static_cast<std::int64_t>(r.below(3)), frag, 0}; gid[static_cast<std::size_t>(cl)] = static_cast<int>(op.a[1]); }
+                else if (q < 7) {
+                    op.k = "register"; op.a = {cl, static_cast<std::int64_t>(r.below(3)), frag, 0};
+                    if (gid[static_cast<std::size_t>(cl)] != static_cast<int>(op.a[1])) gold[static_cast<std::size_t>(cl)].push_back(gid[static_cast<std::size_t>(cl)]);
+                    gid[static_cast<std::size_t>(cl)] = static_cast<int>(op.a[1]);
+                }
                 else if (q < 8) { op.k = "early"; op.a = {cl}; }
-                else { op.k = "close"; op.a = {cl, static_cast<std::int64_t>(r.below(4) == 0)}; st = 0; }
+                else { op.k = "close"; op.a = {cl, static_cast<std::int64_t>(r.below(4) == 0)}; st = 0; gold[static_cast<std::size_t>(cl)].clear(); }
             } else if (st == 2) { op.k = "identity"; op.a = {cl, frag, r.pick<std::int64_t>({32, 32, 32, 7, 31})}; st = 3; }
             else {
                 if (r.chance(4, 5)) { op.k = "data"; op.a = {cl, r.pick<std::int64_t>({1, 3, 40, 700}), frag}; }
